@@ -50,6 +50,77 @@ class HarnessError(Exception):
     pass
 
 
+class CaseTimeout(BaseException):
+    """Raised by the SIGALRM watchdog inside a case that has been running for CASE_TIMEOUT_S (>= 10^4 x typical).
+    It is never a verdict by itself: the case is re-run under a deterministic call-count budget to decide."""
+
+
+class CallBudgetExceeded(BaseException):
+    pass
+
+
+CASE_TIMEOUT_S = float(os.environ.get("VERIF_CASE_TIMEOUT", "25"))
+CALL_BUDGET = int(os.environ.get("VERIF_CALL_BUDGET", "6000000"))
+
+
+def _alarm(signum, frame):  # noqa: ARG001
+    raise CaseTimeout()
+
+
+class time_limit:
+    """Wall-clock watchdog for the main thread of a worker (no-op elsewhere)."""
+
+    _depth = 0  # re-entrant: only the outermost block owns the timer
+
+    def __init__(self, seconds: float = CASE_TIMEOUT_S):
+        self.seconds = seconds
+        self.active = False
+
+    def __enter__(self):
+        import signal
+        import threading
+
+        if threading.current_thread() is threading.main_thread():
+            if time_limit._depth == 0:
+                self.old = signal.signal(signal.SIGALRM, _alarm)
+                signal.setitimer(signal.ITIMER_REAL, self.seconds, 0.5)  # repeats: a swallowed alarm fires again
+                self.active = True
+            time_limit._depth += 1
+            self.counted = True
+        else:
+            self.counted = False
+        return self
+
+    def __exit__(self, *exc):
+        import signal
+
+        if self.counted:
+            time_limit._depth -= 1
+        if self.active:
+            signal.setitimer(signal.ITIMER_REAL, 0)
+            signal.signal(signal.SIGALRM, self.old)
+        return False
+
+
+def run_with_call_budget(fn: Callable[[], Any], budget: int = CALL_BUDGET) -> Any:
+    """Deterministic non-termination detector: counts Python function calls made by fn()."""
+    count = 0
+
+    def prof(frame, event, arg):  # noqa: ARG001
+        nonlocal count
+        if event == "call":
+            count += 1
+            if count > budget:
+                sys.setprofile(None)
+                raise CallBudgetExceeded()
+
+    sys.setprofile(prof)
+    try:
+        return fn()
+    finally:
+        sys.setprofile(None)
+
+
 @dataclass
 class CaseInfo:
     nontrivial: bool = False
@@ -129,15 +200,22 @@ class Ctx:
         self.excluded = 0
         self.notes: dict[str, Any] = {}
         self.harness_errors: list[str] = []
+        self.nonterminating = 0
 
     # -- single JSON-able cases -----------------------------------------------------------------------------------
     def case(self, kind: str, case: Any) -> bool:
         """Evaluate one case. Returns True when the oracle was satisfied."""
+        if self.should_abort():
+            self.labels["skipped-after-nontermination"] += 1
+            return False
         self.evaluations += 1
         if len(self.samples) < 2:
             self.samples.append({"kind": kind, "case": case})
         try:
-            info = self.module.eval_case(kind, case)
+            with time_limit():
+                info = self.module.eval_case(kind, case)
+        except CaseTimeout:
+            return self.confirm_slow_case(kind, case)
         except InvalidCase:
             self.labels["invalid-case"] += 1
             return True
@@ -163,6 +241,37 @@ class Ctx:
                     self.keys.add(case_key(kind, case))
                 if len(self.nt_samples) < 2:
                     self.nt_samples.append({"kind": kind, "case": case})
+        return True
+
+    def should_abort(self) -> bool:
+        """True once two non-terminating operations have been confirmed in this task: the violation is established
+        and every further lookup would cost a watchdog period, so the task stops exploring."""
+        return self.nonterminating >= 2
+
+    def confirm_slow_case(self, kind: str, case: Any) -> bool:
+        """A case hit the wall-clock watchdog: decide deterministically by re-running it under a call budget."""
+        self.labels["watchdog-fired"] += 1
+        try:
+            run_with_call_budget(lambda: self.module.eval_case(kind, case))
+        except CallBudgetExceeded:
+            self.nonterminating += 1
+            self._record(f"{self.prop}/{kind}/nonterminating", kind, case, f"more than {CALL_BUDGET} Python calls (typical: thousands) - the operation does not terminate")
+            return False
+        except InvalidCase:
+            return True
+        except Mismatch as m:
+            self._record(f"{self.prop}/{kind}/{m.sig}", kind, case, m.msg)
+            return False
+        except (KeyboardInterrupt, SystemExit, MemoryError):
+            raise
+        except BaseException as e:  # noqa: BLE001
+            sig = exception_signature(self.prop, kind, e)
+            if sig is None:
+                self.harness_errors.append(f"{kind} slow-case replay: {type(e).__name__}: {e}")
+            else:
+                self._record(sig, kind, case, f"{type(e).__name__}: {e}"[:500])
+            return False
+        self.labels["slow-case-completed"] += 1
         return True
 
     # -- tight loops ------------------------------------------------------------------------------------------------
@@ -277,7 +386,13 @@ def sub_seed(seed: int, *parts: Any) -> int:
 
 def signature_and_message(module: Any, kind: str, case: Any) -> tuple[str | None, str]:
     try:
-        module.eval_case(kind, case)
+        try:
+            with time_limit():
+                module.eval_case(kind, case)
+        except CaseTimeout:
+            run_with_call_budget(lambda: module.eval_case(kind, case))
+    except CallBudgetExceeded:
+        return f"{module.PROPERTY}/{kind}/nonterminating", "the operation does not terminate (call budget exceeded)"
     except InvalidCase:
         return None, ""
     except Mismatch as m:
